@@ -816,6 +816,10 @@ def targets(tier='quick'):
     RTB = tebd_registry()
     T.append(Target('tebd/compute[fresh]', 'pt_tebd.PtTebd.compute', scen_tebd(True), post_tebd, RTB, PROP, replay=rp('tebd_split')))
     T.append(Target('tebd/compute[continue]', 'pt_tebd.PtTebd.compute', scen_tebd(False), post_tebd, RTB, PROP, replay=rp('tebd_split')))
+    # the back end's side of the PtTebd contract used above ("compute_traces(step) makes the traces those of the CURRENT chain"):
+    # real PtTebdBackend code on free tensors, with an observer query before the chain changes
+    from . import c10
+    T.append(c10.TraceTarget(3, evolve=True, query_first=True, prop=PROP))
     T.append(lemma_restart())
     T.append(lemma_history())
     return T
